@@ -396,3 +396,6 @@ REWRITES = [
     Rewrite("send-fstring-phase", BOSS, "        self._S.send(\"%d\" % phase, plaintext)", "        self._S.send(f\"{phase}\", plaintext)", desc="f-string formatting"),
     Rewrite("drain-clear-call", _SEND, "        self._queue[:] = []", "        self._queue.clear()", desc="clear() instead of slice assignment"),
 ]
+
+MUTANTS.append(Mutant("reorder-buffers-aliased", BOSS, "        self._rx_phases = {}  # phase -> plaintext", "        self._rx_phases = self._rx_dilate_seqnums = {}  # phase -> plaintext", ("C03.R0", "C03.R2"),
+                      "one dict for the application reorder buffer and the dilation one"))
